@@ -392,7 +392,7 @@ def oracle_C11(spec, tr):
             if not near(x, want, max(abs(want), dt), 1e-10):
                 out.append((f'instant {i + 1} of the run is at {x}, expected {want}', {'dt': dt}))
                 return out
-        if appended and appended[-1] > start + T + 1e-9 * max(T, 1e-9):
+        if appended and appended[-1] > start + T + 1e-9 * max(T, 1e-9) + 8 * math.ulp(abs(start + T)):      # (+ the rounding of the sum itself)
             out.append(('the axis overruns the requested simulation time', {'last': appended[-1], 'end': start + T}))
             return out
     return out
